@@ -15,7 +15,8 @@ EXPLANATION = ("Decided from MIR: (R1) ContentPackCreator::detect_compression re
                "Compression::None and copies inputs verbatim, the compressor records self.compression (C01-R5 checks the tag tables); (R4) "
                "CachedContentAdder::cache_content calls the wrapped adder only on the Vacant arm, inserts and returns its result, returns "
                "the stored address on the Occupied arm, and the key is the Blake3 of the whole content (input rewound afterwards). The entropy "
-               "threshold and hash collisions are not decided.")
+               "threshold and hash collisions are not decided."
+               ' Added later: (R5) compressor workers only build WriteTask::Compressed; (R6) the configured Compression reaches the cluster writer and the routing decision unchanged.')
 ASSUMPTIONS = ["Blake3 collision resistance", "HashMap entry API semantics", "rustc MIR construction and trait resolution"]
 
 
